@@ -167,9 +167,9 @@ Lemma effects_allowed o c st e :
   (eff_owner e = OMigrate -> requests_migration c = true).
 Proof.
   unfold effects, run_log. intros H. apply run_stages_effects in H. destruct H as [s [st' [Hs He]]].
-  destruct c as [m emb f out| | | |file| | | |t]; simpl in Hs; try (exfalso; exact Hs).
+  destruct c as [cfg m emb f out| | | |file| | | |t]; simpl in Hs; try (exfalso; exact Hs).
   - (* up *)
-    unfold up_stages in Hs. destruct (up_context o st) as [[root sf]|]; [|destruct Hs].
+    unfold up_stages in Hs. destruct (up_context o cfg st) as [[root sf]|]; [|destruct Hs].
     destruct Hs as [<-|[<-|[]]].
     + destruct (m && csv_format st' root sf)%bool eqn:G; [|destruct He].
       apply mig_effects_shape in He. destruct He as [Ho _]. rewrite Ho. split; [reflexivity|].
@@ -194,9 +194,9 @@ Lemma readonly_step o c st p :
 Proof.
   intros Hro Hp. unfold run, run_log. apply run_stages_untouched.
   intros s st' e Hs He.
-  destruct c as [m emb f out| | | |file| | | |t]; simpl in Hs; try (exfalso; exact Hs); [|discriminate Hro].
+  destruct c as [cfg m emb f out| | | |file| | | |t]; simpl in Hs; try (exfalso; exact Hs); [|discriminate Hro].
   simpl in Hro. apply negb_true_iff in Hro. subst m.
-  unfold up_stages in Hs. simpl in Hp. destruct (up_context o st) as [[root sf]|]; [|destruct Hs].
+  unfold up_stages in Hs. simpl in Hp. destruct (up_context o cfg st) as [[root sf]|]; [|destruct Hs].
   destruct Hs as [<-|[<-|[]]]; [destruct He|].
   destruct (pipeline_ok o st'); simpl in He; [|destruct He].
   destruct f; simpl in He; try destruct He. simpl in Hp.
@@ -231,14 +231,14 @@ Qed.
 
 Lemma readonly_dirs o c st d :
   readonly c = true -> In d (dirs (run o c st)) ->
-  In d (dirs st) \/ exists root s, up_context o st = Some (root, s) /\ d = root ++ sf_output_dir s.
+  In d (dirs st) \/ exists root s, up_context o (cmd_cfg c) st = Some (root, s) /\ d = root ++ sf_output_dir s.
 Proof.
   intros Hro H. unfold run, run_log in H. rewrite run_stages_state in H. apply apply_all_dirs in H.
   destruct H as [H|[ow H]]; [now left|]. right.
   apply run_stages_effects in H. destruct H as [s [st' [Hs He]]].
-  destruct c as [m emb f out| | | |file| | | |t]; simpl in Hs; try (exfalso; exact Hs); [|discriminate Hro].
-  simpl in Hro. apply negb_true_iff in Hro. subst m.
-  unfold up_stages in Hs. destruct (up_context o st) as [[root sf]|]; [|destruct Hs].
+  destruct c as [cfg m emb f out| | | |file| | | |t]; simpl in Hs; try (exfalso; exact Hs); [|discriminate Hro].
+  simpl in Hro. apply negb_true_iff in Hro. subst m. cbn [cmd_cfg].
+  unfold up_stages in Hs. destruct (up_context o cfg st) as [[root sf]|]; [|destruct Hs].
   exists root, sf. split; [reflexivity|].
   destruct Hs as [<-|[<-|[]]]; [destruct He|].
   destruct (pipeline_ok o st' && is_html f)%bool; [|destruct He].
@@ -560,12 +560,12 @@ Proof.
 Qed.
 
 (* ---- up: context None means the command does nothing ---- *)
-Lemma up_no_context o m emb f out st : up_context o st = None -> run o (Up m emb f out) st = st.
+Lemma up_no_context o cfg m emb f out st : up_context o cfg st = None -> run o (Up cfg m emb f out) st = st.
 Proof. intros H. unfold run, run_log, stages, up_stages. now rewrite H. Qed.
 
-Lemma up_split o m emb f out st root s :
-  up_context o st = Some (root, s) ->
-  run o (Up m emb f out) st =
+Lemma up_split o cfg m emb f out st root s :
+  up_context o cfg st = Some (root, s) ->
+  run o (Up cfg m emb f out) st =
   let st1 := apply_all (if (m && csv_format st root s)%bool then mig_effects o root st else []) st in
   apply_all (if (pipeline_ok o st1 && is_html f)%bool then report_effects o root s emb out st1 else []) st1.
 Proof.
@@ -583,15 +583,15 @@ Proof.
   apply report_effects_shape in He. destruct He as [_ Ht]. intros Hx. apply (H eq_refl). now apply Ht.
 Qed.
 
-Lemma migrate_keeps_partial o emb f out st root s q c0 :
-  up_context o st = Some (root, s) ->
+Lemma migrate_keeps_partial o cfg emb f out st root s q c0 :
+  up_context o cfg st = Some (root, s) ->
   fget st q = Some c0 ->
-  ~ In q (report_paths o (Up true emb f out) st) ->
-  ~ In (root ++ P_BAK) (report_paths o (Up true emb f out) st) ->
+  ~ In q (report_paths o (Up cfg true emb f out) st) ->
+  ~ In (root ++ P_BAK) (report_paths o (Up cfg true emb f out) st) ->
   ((q <> root ++ P_BAK /\ q <> root ++ P_RULES) \/ csv_format st root s = false) ->
-  kept root (run o (Up true emb f out) st) q c0.
+  kept root (run o (Up cfg true emb f out) st) q c0.
 Proof.
-  intros Hc Hq Hrp Hrb G. rewrite (up_split _ _ _ _ _ _ _ _ Hc). cbv zeta.
+  intros Hc Hq Hrp Hrb G. rewrite (up_split _ _ _ _ _ _ _ _ _ Hc). cbv zeta.
   simpl in Hrp, Hrb. rewrite Hc in Hrp, Hrb.
   set (st1 := apply_all (if (true && csv_format st root s)%bool then mig_effects o root st else []) st).
   assert (K1 : kept root st1 q c0).
@@ -610,12 +610,12 @@ Proof.
 Qed.
 
 (* without --migrate the migration stage is empty, whatever the budget *)
-Lemma up_nomigrate_effects o emb f out st e :
-  In e (effects o (Up false emb f out) st) -> eff_owner e = OReport \/ eff_owner e = OOutDir.
+Lemma up_nomigrate_effects o cfg emb f out st e :
+  In e (effects o (Up cfg false emb f out) st) -> eff_owner e = OReport \/ eff_owner e = OOutDir.
 Proof.
   intros H. destruct (effects_allowed o _ st e H) as [_ Hm].
   unfold effects, run_log in H. apply run_stages_effects in H. destruct H as [s0 [st' [Hs He]]].
-  simpl in Hs. unfold up_stages in Hs. destruct (up_context o st) as [[root sf]|]; [|destruct Hs].
+  simpl in Hs. unfold up_stages in Hs. destruct (up_context o cfg st) as [[root sf]|]; [|destruct Hs].
   destruct Hs as [<-|[<-|[]]]; [destruct He|].
   destruct (pipeline_ok o st' && is_html f)%bool; [|destruct He].
   apply report_effects_shape in He. tauto.
@@ -676,9 +676,9 @@ Proof. intros H. unfold run, run_log. rewrite run_stages_state. now apply apply_
 Lemma isdir_In st d : isdir st d = true <-> In d (dirs st).
 Proof. unfold isdir. apply mem_In. Qed.
 
-Lemma up_context_root o st root s : up_context o st = Some (root, s) -> find_root st = Some root.
+Lemma up_context_root o cfg st root s : up_context o cfg st = Some (root, s) -> root_for cfg st = Some root.
 Proof.
-  unfold up_context. destruct (find_root st) as [r|]; [|discriminate].
+  unfold up_context. destruct (root_for cfg st) as [r|]; [|discriminate].
   destruct (fget st (r ++ P_SETTINGS)) as [sc|]; [|discriminate].
   destruct (parse_settings o sc) as [sf|]; [|discriminate].
   destruct (sf_sources sf); [|discriminate]. intros H. now inversion H.
@@ -687,52 +687,67 @@ Qed.
 Lemma run_noop o c st : stages o c st = [] -> run o c st = st.
 Proof. intros H. unfold run, run_log. now rewrite H. Qed.
 
-Lemma up_context_stable o c st :
+(* a read-only command does not change what a later `up` WITH THE SAME CONFIG DESIGNATION learns about the budget *)
+Lemma up_context_stable o c cfg st :
   readonly c = true ->
-  (forall root s, up_context o st = Some (root, s) -> ~ In (root ++ P_SETTINGS) (report_paths o c st)) ->
-  up_context o (run o c st) = up_context o st.
+  (is_up c = true -> cmd_cfg c = cfg) ->
+  (forall root s, up_context o cfg st = Some (root, s) -> ~ In (root ++ P_SETTINGS) (report_paths o c st)) ->
+  up_context o cfg (run o c st) = up_context o cfg st.
 Proof.
-  intros Hro Hs.
-  destruct c as [m emb f out| | | |file| | | |t]; try (rewrite run_noop; reflexivity); [|discriminate Hro].
-  destruct (up_context o st) as [[root sf]|] eqn:Hc; [|now rewrite up_no_context].
-  pose proof (up_context_root _ _ _ _ Hc) as Hr.
-  assert (Hset : fget (run o (Up m emb f out) st) (root ++ P_SETTINGS) = fget st (root ++ P_SETTINGS)).
+  intros Hro Hcfg Hs.
+  destruct c as [cfg0 m emb f out| | | |file| | | |t]; try (rewrite run_noop; reflexivity); [|discriminate Hro].
+  simpl in Hcfg. specialize (Hcfg eq_refl). subst cfg0.
+  destruct (up_context o cfg st) as [[root sf]|] eqn:Hc; [|now rewrite up_no_context].
+  pose proof (up_context_root _ _ _ _ _ Hc) as Hr.
+  assert (Hset : fget (run o (Up cfg m emb f out) st) (root ++ P_SETTINGS) = fget st (root ++ P_SETTINGS)).
   { apply readonly_step; [exact Hro|]. now apply (Hs root sf). }
-  assert (Hroot : find_root (run o (Up m emb f out) st) = Some root).
-  { unfold find_root in *. destruct (isdir st "config") eqn:D1.
-    - inversion Hr; subst root. apply isdir_In in D1.
-      apply (run_dirs_mono o (Up m emb f out)) in D1. apply isdir_In in D1. now rewrite D1.
-    - destruct (isdir st "tally/config") eqn:D2; [|discriminate Hr]. inversion Hr; subst root.
-      destruct (isdir (run o (Up m emb f out) st) "config") eqn:D3.
-      + exfalso. apply isdir_In in D3. apply (readonly_dirs o _ st _ Hro) in D3.
-        destruct D3 as [D3|[r' [s' [Hc' D3]]]].
-        * apply isdir_In in D3. congruence.
-        * rewrite Hc in Hc'. inversion Hc'; subst r' s'. simpl in D3. discriminate D3.
-      + apply isdir_In in D2. apply (run_dirs_mono o (Up m emb f out)) in D2. apply isdir_In in D2.
-        now rewrite D2. }
+  assert (Hroot : root_for cfg (run o (Up cfg m emb f out) st) = Some root).
+  { destruct cfg as [r|]; simpl in Hr |- *.
+    - destruct (isdir st (r ++ "config")) eqn:D0; [|discriminate Hr]. inversion Hr; subst root.
+      apply isdir_In in D0. apply (run_dirs_mono o (Up (Some r) m emb f out)) in D0. apply isdir_In in D0. now rewrite D0.
+    - unfold find_root in *. destruct (isdir st "config") eqn:D1.
+      + inversion Hr; subst root. apply isdir_In in D1.
+        apply (run_dirs_mono o (Up None m emb f out)) in D1. apply isdir_In in D1. now rewrite D1.
+      + destruct (isdir st "tally/config") eqn:D2; [|discriminate Hr]. inversion Hr; subst root.
+        destruct (isdir (run o (Up None m emb f out) st) "config") eqn:D3.
+        * exfalso. apply isdir_In in D3. apply (readonly_dirs o _ st _ Hro) in D3.
+          destruct D3 as [D3|[r' [s' [Hc' D3]]]].
+          -- apply isdir_In in D3. congruence.
+          -- cbn [cmd_cfg] in Hc'. rewrite Hc in Hc'. inversion Hc'; subst r' s'. simpl in D3. discriminate D3.
+        * apply isdir_In in D2. apply (run_dirs_mono o (Up None m emb f out)) in D2. apply isdir_In in D2.
+          now rewrite D2. }
   unfold up_context in *. rewrite Hroot, Hr in *. rewrite Hset. exact Hc.
 Qed.
 
-Lemma report_paths_ctx o c st1 st2 : up_context o st1 = up_context o st2 -> report_paths o c st1 = report_paths o c st2.
-Proof. intros H. destruct c; simpl; try reflexivity. now rewrite H. Qed.
+Lemma report_paths_ctx o c st1 st2 :
+  up_context o (cmd_cfg c) st1 = up_context o (cmd_cfg c) st2 -> report_paths o c st1 = report_paths o c st2.
+Proof. intros H. destruct c; simpl in *; try reflexivity. now rewrite H. Qed.
 
 (* the sequence theorem with the output location computed once, from the budget as it is before the first
-   command — provided the settings file itself is not configured to be a report file *)
-Lemma readonly_seq_stable o p cs : forall st,
+   command — provided the settings file itself is not configured to be a report file, and every `up` of the
+   sequence designates the budget in the same way (all by auto-detection, or all by the same explicit directory) *)
+Lemma readonly_seq_stable o p cfg cs : forall st,
   forallb readonly cs = true ->
+  (forall c, In c cs -> is_up c = true -> cmd_cfg c = cfg) ->
   (forall c, In c cs -> ~ In p (report_paths o c st)) ->
-  (forall c root s, In c cs -> up_context o st = Some (root, s) -> ~ In (root ++ P_SETTINGS) (report_paths o c st)) ->
+  (forall c root s, In c cs -> up_context o cfg st = Some (root, s) -> ~ In (root ++ P_SETTINGS) (report_paths o c st)) ->
   fget (run_seq o cs st) p = fget st p.
 Proof.
-  induction cs as [|c r IH]; intros st Hro Hp Hs; [reflexivity|].
+  induction cs as [|c r IH]; intros st Hro Hcf Hp Hs; [reflexivity|].
   simpl in Hro. apply andb_prop in Hro. destruct Hro as [Hc Hr].
-  assert (Hctx : up_context o (run o c st) = up_context o st).
-  { apply up_context_stable; [exact Hc|]. intros root s E. apply (Hs c root s); [now left | exact E]. }
+  assert (Hctx : up_context o cfg (run o c st) = up_context o cfg st).
+  { apply up_context_stable; [exact Hc | apply Hcf; now left |].
+    intros root s E. apply (Hs c root s); [now left | exact E]. }
+  assert (Hrp : forall c', In c' r -> report_paths o c' (run o c st) = report_paths o c' st).
+  { intros c' Hc'. destruct (is_up c') eqn:U.
+    - apply report_paths_ctx. rewrite (Hcf c' (or_intror Hc') U). exact Hctx.
+    - destruct c'; try discriminate U; reflexivity. }
   unfold run_seq in *. simpl. rewrite IH.
   - apply readonly_step; [exact Hc | apply Hp; now left].
   - exact Hr.
-  - intros c' Hc'. rewrite (report_paths_ctx o c' _ _ Hctx). apply Hp. now right.
-  - intros c' root s Hc' E. rewrite (report_paths_ctx o c' _ _ Hctx). rewrite Hctx in E.
+  - intros c' Hc'. apply Hcf. now right.
+  - intros c' Hc'. rewrite (Hrp c' Hc'). apply Hp. now right.
+  - intros c' root s Hc' E. rewrite (Hrp c' Hc'). rewrite Hctx in E.
     apply (Hs c' root s); [now right | exact E].
 Qed.
 
@@ -743,12 +758,12 @@ Definition init_keeps_statement : Prop :=
 
 (* `up --migrate` keeps every existing file outside the report files (same reading of "kept") *)
 Definition migrate_keeps_statement : Prop :=
-  forall o emb f out st root s q c0,
-    up_context o st = Some (root, s) ->
+  forall o cfg emb f out st root s q c0,
+    up_context o cfg st = Some (root, s) ->
     fget st q = Some c0 ->
-    ~ In q (report_paths o (Up true emb f out) st) ->
-    ~ In (root ++ P_BAK) (report_paths o (Up true emb f out) st) ->
-    kept root (run o (Up true emb f out) st) q c0.
+    ~ In q (report_paths o (Up cfg true emb f out) st) ->
+    ~ In (root ++ P_BAK) (report_paths o (Up cfg true emb f out) st) ->
+    kept root (run o (Up cfg true emb f out) st) q c0.
 
 (* witnesses *)
 Definition w_facts : sfacts :=
@@ -780,9 +795,9 @@ Lemma migrate_keeps_refuted_bak : ~ migrate_keeps_statement.
 Proof.
   intros H.
   assert (R : forall q, q <> "output/spending_summary.html" ->
-                        ~ In q (report_paths w_oracle (Up true true FHtml None) w_up_state)).
+                        ~ In q (report_paths w_oracle (Up None true true FHtml None) w_up_state)).
   { intros q Hq. vm_compute. intros [E|[]]. now apply Hq. }
-  specialize (H w_oracle true FHtml None w_up_state "" w_facts "config/merchant_categories.csv.bak" "OLD BACKUP"
+  specialize (H w_oracle None true FHtml None w_up_state "" w_facts "config/merchant_categories.csv.bak" "OLD BACKUP"
                 eq_refl eq_refl).
   destruct H as [H|[[H _]|[H _]]]; try (vm_compute in H; discriminate H); apply R; discriminate.
 Qed.
@@ -791,8 +806,8 @@ Lemma migrate_keeps_refuted_rules : ~ migrate_keeps_statement.
 Proof.
   intros H.
   assert (R : forall q, q <> "output/spending_summary.html" ->
-                        ~ In q (report_paths w_oracle (Up true true FHtml None) w_up_state)).
+                        ~ In q (report_paths w_oracle (Up None true true FHtml None) w_up_state)).
   { intros q Hq. vm_compute. intros [E|[]]. now apply Hq. }
-  specialize (H w_oracle true FHtml None w_up_state "" w_facts "config/merchants.rules" "[Mine]" eq_refl eq_refl).
+  specialize (H w_oracle None true FHtml None w_up_state "" w_facts "config/merchants.rules" "[Mine]" eq_refl eq_refl).
   destruct H as [H|[[H _]|[H _]]]; try (vm_compute in H; discriminate H); apply R; discriminate.
 Qed.
